@@ -84,6 +84,18 @@ pub mod hb {
         { unimplemented!() }
     }
 
+    impl<'a, K: Hashable, V> RawEntryBuilder<'a, K, V> {
+        /// read-side lookup by hash and an arbitrary predicate: SOME stored key the predicate accepted, or none accepted
+        #[verifier::external_body]
+        pub fn from_hash<F: FnMut(&K) -> bool>(self, hash: u64, is_match: F) -> (r: Option<(&'a K, &'a V)>)
+            requires forall|k: &K| is_match.requires((k,)),
+            ensures match r {
+                Some((kk, v)) => self.map@.contains_key(*kk) && *v == self.map@[*kk] && is_match.ensures((kk,), true),
+                None => forall|k: K| #![trigger self.map@.contains_key(k)] self.map@.contains_key(k) && k.hash_of() == hash ==> is_match.ensures((&k,), false),
+            },
+        { unimplemented!() }
+    }
+
     impl<'a, K: Hashable, V> RawEntryBuilderMut<'a, K, V> {
         /// lookup by hash and an arbitrary match predicate: finds SOME stored key accepted by the predicate (not necessarily
         /// the caller's key), or reports vacancy if no stored key is accepted
@@ -306,6 +318,10 @@ impl<K, S> Registry<K, S> where S: Storage<K>, K: Clone + Eq + Hashable {
     ensures
         // `op` ran (exactly once: it is FnOnce) on some storage of this kind
         exists|c: S::Counter| op.ensures((&c,), out),
+//@BEFORE 1 op(v)
+        // "every get-or-create with an equal key operates on that same storage": on the read-locked fast path `op` is handed the
+        // storage the shard maps THIS key to (not that of another key that merely shares its hash)
+        proof { assert((*rguarded(&shard_read))@.contains_key(*key) && *v == (*rguarded(&shard_read))@[*key]); }
 //@END
 
 //@ITEM file=metrics-util/src/registry/mod.rs sel=impl<K, S> Registry<K, S> where S: Storage<K>, K: Clone \+ Eq \+ Hashable, :: fn get_or_create_gauge ret=out
@@ -316,6 +332,10 @@ impl<K, S> Registry<K, S> where S: Storage<K>, K: Clone + Eq + Hashable {
     ensures
         // `op` ran (exactly once: it is FnOnce) on some storage of this kind
         exists|c: S::Gauge| op.ensures((&c,), out),
+//@BEFORE 1 op(v)
+        // "every get-or-create with an equal key operates on that same storage": on the read-locked fast path `op` is handed the
+        // storage the shard maps THIS key to (not that of another key that merely shares its hash)
+        proof { assert((*rguarded(&shard_read))@.contains_key(*key) && *v == (*rguarded(&shard_read))@[*key]); }
 //@END
 
 //@ITEM file=metrics-util/src/registry/mod.rs sel=impl<K, S> Registry<K, S> where S: Storage<K>, K: Clone \+ Eq \+ Hashable, :: fn get_or_create_histogram ret=out
@@ -326,6 +346,10 @@ impl<K, S> Registry<K, S> where S: Storage<K>, K: Clone + Eq + Hashable {
     ensures
         // `op` ran (exactly once: it is FnOnce) on some storage of this kind
         exists|c: S::Histogram| op.ensures((&c,), out),
+//@BEFORE 1 op(v)
+        // "every get-or-create with an equal key operates on that same storage": on the read-locked fast path `op` is handed the
+        // storage the shard maps THIS key to (not that of another key that merely shares its hash)
+        proof { assert((*rguarded(&shard_read))@.contains_key(*key) && *v == (*rguarded(&shard_read))@[*key]); }
 //@END
 }
 
